@@ -6,7 +6,7 @@ EMP_OPS = {"e", "i", "x", "t"}
 
 DEF = {"t": 0, "k": "", "loc": "", "i": 0, "v": 0, "a": 0, "b": 0, "ok": True, "mo": "", "mof": "", "op": "", "key": 0, "res": 0, "ins": False,
        "slots": [], "ntab": 0, "mbad": 0, "status": "", "kind": "", "head": 0, "keys": [], "pre": [], "prog": [], "hook": False}
-SCHED = {"spawn", "start", "exit", "join", "tick", "crash", "dec", "ctorm", "ffind", "prefill_bad", "clock"}  # clock: retire list of the thread-local storage vector
+SCHED = {"spawn", "start", "exit", "join", "tick", "crash", "dec", "ctorm", "ffind", "femp", "alloc", "fslots", "prefill_bad", "clock"}  # clock: retire list of the thread-local storage vector
 
 
 # ------------------------------------------------------------------------------------------------ parameters
@@ -211,6 +211,8 @@ def monitor_lines(events):
             out.append(dict(MDEF, k="final", slots=[[s[0] * 1000 + s[1], s[2], s[4]] for s in fslots + e.get("slots", [])]))
         elif k == "ffind":
             out.append(dict(MDEF, k="ffind", key=e["key"], res=_code(e["ord"], e["idx"])))
+        elif k == "femp":
+            out.append(dict(MDEF, k="femp", key=e["key"], res=_code(e["ord"], e["idx"]), ins=e["ins"]))
         elif k == "end":
             out.append(dict(MDEF, k="end", status=e.get("status", "?")))
     return out
@@ -455,7 +457,7 @@ def check_traces(tla, cfg, execs, name, max_rounds=6, timeout=1800):
 
 
 # ------------------------------------------------------------------------------------------------ replay of TLC behaviours
-CONSUMING = {"load", "store", "xchg", "cas", "faa", "fand", "for", "fxor", "fence", "yield", "call", "hash", "keq", "ctor", "ctorm", "ret"}
+CONSUMING = {"alloc", "load", "store", "xchg", "cas", "faa", "fand", "for", "fxor", "fence", "yield", "call", "hash", "keq", "ctor", "ctorm", "ret"}
 MODELLED_USER = {"call", "hash", "keq", "ctor", "ret", "yield", "fence"}
 
 
@@ -469,7 +471,7 @@ def _consuming(ex):
             continue
         if k in MODELLED_USER:
             out.append((t, True, k))
-        elif k == "ctorm":
+        elif k in ("ctorm", "alloc"):
             out.append((t, False, k))
         else:
             out.append((t, _loc(e) is not None, k))
